@@ -923,6 +923,13 @@ spif_dlinked_list_map_remove(spif_dlinked_list_t self, spif_obj_t item)
             return (spif_obj_t) NULL;
         }
     }
+    /* Keep the back-links and the tail consistent, too. */
+    if (!SPIF_DLINKED_LIST_ITEM_ISNULL(tmp->next)) {
+        tmp->next->prev = tmp->prev;
+    }
+    if (tmp == self->tail) {
+        self->tail = tmp->prev;
+    }
     item = tmp->data;
     tmp->data = (spif_obj_t) NULL;
     spif_dlinked_list_item_del(tmp);
